@@ -8,7 +8,8 @@ CLAIMED = {
             'Every SpectralInformation mutator and every element __call__ is executed symbolically from an arbitrary valid '
             'state (all positive powers, all valid signal/ASE/NLI splits, k<=3 channels; 4 thorough) and z3 decides that the '
             'split invariant and the power bookkeeping hold on the post-state on every path; one inductive step covers '
-            'histories of any length.',
+            'histories of any length. The reported-ratio identity also with the ASE (or NLI) share exactly zero; after an amplifier '
+            'call the input spectrum object still carries its own split (no aliasing).',
             'floats modelled as reals; bounds on channel count; z3, symx operator overloading, numpy object dispatch trusted',
             'DESIGN.md §2 C01'),
     'C02': ('symx',
@@ -16,7 +17,9 @@ CLAIMED = {
             'models replayed on the float code',
             'From an arbitrary valid state, one real element call (Roadm, Fused, Fiber with real NliSolver, every Edfa type_def); z3 '
             'decides GSNR/OSNR_ASE/SNR_NLI non-increase, equality for passive elements, ASE-only for amplifiers, NLI-only for fibres, '
-            'for all powers/splits/gains/losses within the bound (k<=3; 4 thorough).',
+            'for all powers/splits/gains/losses within the bound (k<=3; 4 thorough). GGN methods with NLI computed on a subset of the '
+            'channels: for arbitrary non-negative efficiencies of the computed channels (stub for the numerical integrals) the real '
+            'compute_nli gives no channel a negative NLI.',
             'floats as reals; Raman off; flat amplifier profile; concrete fibre types; z3 and symx trusted',
             'DESIGN.md §2 C02'),
     'C06': ('symx',
@@ -43,7 +46,8 @@ CLAIMED = {
             'Edfa.__call__ of every library type_def with symbolic set gain, VOAs, p_max, input powers/splits (k<=3 + out-of-band '
             'channel): effective gain = min(set, p_max - Pin), G*Pin <= p_max, out = (in+h.f.B.NF)*G/VOA per share, out-of-band '
             'channels dropped; NF(gain_flatmax)=nf_min, NF(gain_min)=nf_max, monotone, dB-for-dB below gain_min, Friis for dual stage; '
-            'estimate_nf_model on symbolic datasheets (thorough).',
+            'estimate_nf_model on symbolic datasheets (thorough). Symbolic lower band edge around the first carrier (slot inside / '
+            'straddling / outside, one carrier left); the same instance after another comb of equal channel count equals a fresh one.',
             'floats as reals; flat profile only (tilt/ripple normalisation is an approximation, outside the claim); math.isclose by '
             'its real definition',
             'DESIGN.md §2 C04'),
@@ -53,7 +57,8 @@ CLAIMED = {
             'Fiber.propagate (Raman off) on concrete fibres with symbolic pads/connectors/powers and accumulated CD/PMD/latency: output '
             '= input / (att_in+con_in+loss_coef*L+lumped+con_out), CD and latency additive, PMD/PDL in quadrature, all 6 orders of '
             'Fiber-Roadm-Edfa give the same totals; Raman ON (perturbative order 1-2, numerical) with zero coupling and symbolic lumped '
-            'losses reduces to exp(-aL) * each lumped loss exactly once.',
+            'losses (on and off the solver grid) reduces to exp(-aL) * each lumped loss exactly once; latency of the spans made by '
+            'split_fiber adds up to that of the original fibre (symbolic length).',
             'floats as reals; concrete fibre variants; Raman sub-claims about method agreement, orders 3-4, iterative co/counter solver '
             'and pump gain are outside the technique (no bounded exact assertion); Fiber.cr and interp1d stubbed in H5c',
             'DESIGN.md §2 C05'),
@@ -73,7 +78,9 @@ CLAIMED = {
             'than the maximum, none longer than it; add_missing_fiber_attributes with symbolic lengths, loss coefficients, user pads and '
             'connectors, padding, EOL and defaults: connectors completed, EOL once, every amplifier-to-amplifier span >= padding, first fibre '
             'padded by exactly the deficit (single, spliced, two-span lines); designed_network on 5 shapes x 8 line flavours: every '
-            'amplifier complete, junctions amplified, one-in/one-out chains, unique names, reachability unchanged.',
+            'amplifier complete, junctions amplified, one-in/one-out chains, unique names, reachability unchanged; also with a transceiver '
+            'plugged straight onto a line and max_length given in metres; split of per-frequency-loss, per-frequency-dispersion and '
+            'lumped-loss fibres keeps loss/dispersion over the spectrum (known finding: lumped losses duplicated, see known_findings.json).',
             'floats as reals; pipeline-level harness uses concrete parameters per shape (structure obligations), shapes listed in the evidence',
             'DESIGN.md §2 C08'),
     'C09': ('symx',
@@ -82,7 +89,9 @@ CLAIMED = {
             'target_power for symbolic span loss, slope, reference loss and range bounds (steps 0.1/0.5/1/0.01): result = slope x (loss - '
             'ref) rounded to the step and clamped, always inside the range, 0 before a ROADM; set_one_amplifier from an arbitrary upstream '
             'state in power mode (with/without operator delta_p and VOA) and gain mode: gain = loss since previous amplifier + change of '
-            'target + VOAs, total design power <= p_max, operator gain/offset kept unless saturating (inductive step along an OMS).',
+            'target + VOAs, total design power <= p_max, operator gain/offset kept unless saturating (inductive step along an OMS); '
+            'set_egress_amplifier over a two-span OMS with symbolic span losses and automatic output VOA on/off: gains telescope; '
+            'auto-selected model (EDFA, Raman/hybrid, fixed-gain sub-libraries): total design power <= p_max of the model picked.',
             'floats as reals; imposed amplifier type; no Raman gain / SRS deviation; span loss injected via the design_span_loss cache',
             'DESIGN.md §2 C09'),
     'C10': ('symx',
@@ -101,7 +110,9 @@ CLAIMED = {
             'thorough) with symbolic link lengths: the route list is cleaned as documented, the returned route starts/ends at the right '
             'transceivers, follows directed links, is loop-free, crosses the include nodes in order, and no admissible simple route is '
             'shorter (all length orderings explored by forking, each obligation a linear-arithmetic z3 query); unsatisfiable STRICT => '
-            'NO_PATH_WITH_CONSTRAINT, unsatisfiable LOOSE => unconstrained optimum; reverse path visits the same sites reversed.',
+            'NO_PATH_WITH_CONSTRAINT, unsatisfiable LOOSE => unconstrained optimum; reverse path visits the same sites reversed. After the '
+            'real add_missing_elements_in_network split a link (symbolic length <= 500 km) edge weights still equal fibre lengths and the '
+            'route is the shortest; include lists on both requests of a disjunction group are respected.',
             'floats as reals; lengths in generic position (no exact ties); minimality up to 1 m; shapes listed in the evidence',
             'DESIGN.md §2 C11'),
     'C12': ('symx',
@@ -109,7 +120,8 @@ CLAIMED = {
             'from site sequences; brute-force existence for the completeness claim',
             'Groups of 2 and 3 requests and two groups sharing a request on 3-4 site meshes: every returned combination is link-disjoint '
             'in both directions and respects STRICT include nodes for every ordering of the candidate routes (symbolic lengths); a '
-            'DisjunctionError for a single pair only when no disjoint pair exists.',
+            'DisjunctionError for a single pair only when no disjoint pair exists. Groups pass through deduplicate_disjunctions (nested and '
+            'duplicate groups); include lists on every request incl. mixed STRICT/LOOSE hop types.',
             'floats as reals; generic lengths; 9 request/group configurations listed in the evidence',
             'DESIGN.md §2 C12'),
     'C13': ('symx',
@@ -139,7 +151,9 @@ CLAIMED = {
             'for a request computed after / before a denser bidirectional one, after a blocked one, and next to a twin differing only in '
             'transmit power, the route, mode, verdict and GSNR/OSNR figures are identical as symbolic expressions to the stand-alone run '
             'for all powers and p_max on the explored paths (saturating and non-saturating), amplifier settings of the network unchanged, '
-            'every request reported under its own id.',
+            'every request reported under its own id. requests_from_json: every attribute of a request equals the one parsed alone for '
+            'every present/null/absent pattern of the optional keys of both requests; compute_path_dsjctn on meshes with symbolic '
+            'lengths: route and blocking reason of each of two requests equal those obtained alone.',
             'floats as reals; NLI stubbed to zero in this harness; 2-3 channels per request; paths explored within the time budget (not '
             'exhaustive); spectrum slots not compared',
             'DESIGN.md §2 C16'),
@@ -150,7 +164,8 @@ CLAIMED = {
             'export rounding (0 dB gain included); line-level completion -> export -> reload -> completion with symbolic lengths, user '
             'values and library defaults: connector losses and pads unchanged (known finding: EOL re-added, see known_findings.json); '
             'designed_network twice and through export/reload on 40 shapes and shipped examples gives identical JSON; SimParams snapshot '
-            'identical before/after auto-design with a RamanFiber for 4 user settings.',
+            'identical before/after auto-design with a RamanFiber for 4 user settings. RamanFiber export/reload keeps pump powers for every '
+            'connector loss; designing the designed object again in place changes nothing (automatic output VOA on/off).',
             'floats as reals; pipeline-level harness with concrete parameters (EOL=0); JSON passed as dicts',
             'DESIGN.md §2 C17'),
     'C20': ('crosshair+symx',
@@ -162,7 +177,8 @@ CLAIMED = {
             'existing endpoints, one fibre per direction with the sheet values (west defaulting to east); Eqpt rows land on the amplifier '
             'facing the named neighbour; a Service row converts units, route list, strictness and disjunction group; route-name correction '
             'for every <=3-name route over a 7-name vocabulary (value-forked). CrossHair verdicts are time-boxed (bounded bug hunting) '
-            'except where it reports "Confirmed over all paths".',
+            'except where it reports "Confirmed over all paths". Per-direction Links cells (filled in / empty / absent / symbolic real '
+            'incl. 0) and Eqpt cells land on the element of their own direction.',
             'cell layer (xlrd/openpyxl, cell typing) replaced by in-memory rows; time-boxed CrossHair; small vocabularies',
             'DESIGN.md §2 C20'),
     'C19': ('symx',
@@ -172,7 +188,8 @@ CLAIMED = {
             'hop, transponder type/mode, assigned N/M labels (none when blocked, with the blocking reason), every SNR metric is the value of '
             'the RIGHT direction\'s receiver rounded to two decimals, penalties are that direction\'s; results_to_json has one entry per '
             'request; the CSV row states the same values and its pass flag is equivalent to lowest SNR >= OSNR + margin; aggregation joins '
-            'only identical requests (id joined, bandwidth summed).',
+            'only identical requests (id joined, bandwidth summed). A request blocked at spectrum assignment is reported as no-path with '
+            'its reason.',
             'floats as reals; 3 channels; csv.DictWriter replaced by a row recorder; line environment stub as in C13',
             'DESIGN.md §2 C19'),
     'C18': ('crosshair',
@@ -181,7 +198,8 @@ CLAIMED = {
             'For each converter pair (degree targets, design bands, per-frequency loss, power ranges, nf_coef incl. YANG list order, '
             'nf_fit_coef, raman coefficient, none<->[None], default ROADM type_variety), the namespace stripping, the integer/decimal '
             'dispatch of convert_dict/convert_back and the Transceiver other_name expansion: back(to(d)) == d, to(to(d)) == to(d), '
-            'structure preserved, every alias reports its own name. "Confirmed over all paths" within the document bound for 8 of 13 '
+            'structure preserved, every alias reports its own name; two ROADMs with their own per-degree bands/targets do not leak into '
+            'each other. "Confirmed over all paths" within the document bound for most '
             'harnesses; the rest are time-boxed bounded bug hunting (no counterexample in 25 s / 120 s).',
             'documents <= 2 elements, leaves <= 2-4 items, strings <= 26 chars; libyang validation, file I/O and CPython float '
             'formatting trusted; composed legacy_to_yang/yang_to_legacy on whole files not symbolically executed',
@@ -191,7 +209,8 @@ CLAIMED = {
             'over request histories); models replayed on the real code',
             'One call of the real pth_assign_spectrum from an arbitrary spectrum state (every bitmap cell symbolic) for every request '
             'shape in the bound: accepted => ranges disjoint, free before and occupied after on every path OMS, untouched elsewhere, '
-            'inside band/guard bands, enough slots, fixed N/M used as given, first-fit lowest position; blocked => state unchanged; '
+            'inside band/guard bands (fixed N next to either band edge included), enough slots, fixed N/M used as given, first-fit '
+            'lowest position; blocked => state unchanged; '
             'never an exception. Each explored path is a branch of the algorithm valid for all cell valuations reaching it.',
             'bitmap length 5-9 (7-11 thorough), <=2 slot entries, M<=2, <=2 channels, guard band 1 slot, first_fit; path elements are '
             'stubs carrying oms_id; z3 and symx trusted',
